@@ -348,7 +348,9 @@ def handle (i o : Json) : Except String Reply := do
   -- the behaviour flags probed from the live code decide which variant of the model runs
   let c := { c with graph := { c.graph with rmCommits := CylcModel.RmFlags.commits,
                                             rmAlwaysDb := CylcModel.RmFlags.alwaysDb,
-                                            anyOutput := CylcModel.RmFlags.anyOutput } }
+                                            anyOutput := CylcModel.RmFlags.anyOutput,
+                                            triggerUnpooled := CylcModel.RmFlags.triggerUnpooled,
+                                            dbRowPerFlowSet := CylcModel.RmFlags.dbRowPerFlowSet } }
   let ops := (jArrField? i "ops").getD []
   let obs := ((obsList o).map parseOb).toArray
   let fails := judgeAll c.graph ops (parseRms c.graph i) obs
